@@ -247,6 +247,18 @@ def fixed_cases():
             inputs = [M.enc_inputs({n: v for n in names}) for v in vals if not isinstance(v, (list, tuple))]
             inputs += [M.enc_inputs({n: "" for n in names})] * 4  # the same empty key again and again
             yield {"prog": prog, "inputs": inputs}
+    # a share boundary placed EXACTLY on the unit's own published position k (integer weights k : 2^32-k, exact in floats):
+    # groups own [lo, hi), so the unit belongs to the second group; with k+1 : 2^32-k-1 to the first; zero / one-point groups
+    for j in range(12):
+        salt = [None, "checkout_v2", ""][j % 3]
+        env = {"uid": "user-%d" % (1000 + j)}
+        k = refbucket.published_position(salt, env)
+        for ws in ([k, refbucket.GRID - k], [k + 1, refbucket.GRID - k - 1], [k, 1, refbucket.GRID - k - 1], [k, 0, refbucket.GRID - k],
+                   [0, k, 0, refbucket.GRID - k], [k - 1, 1, 1, refbucket.GRID - k - 1]):
+            if min(ws) < 0 or sum(ws) != refbucket.GRID:
+                continue
+            body = M.ret([(M.lit_str("g%d" % i), str(w)) for i, w in enumerate(ws)])
+            yield {"prog": M.program("exp", body, salt=salt, splitters=["uid"]), "inputs": [M.enc_inputs(env)]}
     # every catalogue salt and every hostile-but-legal string, as the salt and as a splitter value
     for i, salt in enumerate(SALTS_ASCII + SALTS_UNI + gen.TRICKY_STRS):
         if any(c in salt for c in M.LINE_BREAKS) or ('"' in salt and "'" in salt):
